@@ -57,8 +57,9 @@ ASSUMPTIONS = [
     '"#DIV/0! only at the origin" is read as: exactly #DIV/0! at (0,0), the angle everywhere else',
     'outside the domain / non-numeric text: any error code is accepted (including #ERROR! produced by '
     'Parser.parse from an escaping exception); a NaN, an infinity, a complex or a text result is not an error',
-    'numeric text = plain decimal spellings only ("0.125", "-3", "0.000001"); exponent spellings, "inf", '
-    '"nan", blanks and padded text are not demanded either way; a logical result equal to the expected '
+    'numeric text = plain decimal spellings ("0.125", "-3", "0.000001") plus signed / exponent spellings ("+0.5", '
+    '"1e+16", "1E5", "2.5e-3") on the one-argument functions; "inf", "nan", underscores, blanks and padded text are '
+    'not demanded either way; a logical result equal to the expected '
     'number (True for 1) is accepted as that number',
     'inverse-of-function identities are checked only where they are well conditioned (e.g. ATANH(TANH x) for '
     '|x|<=4, ACOS(COS x) not within 0.01 of 0 or pi but at the end points themselves)',
@@ -148,6 +149,8 @@ def parse_text(s):
 
 
 BADTEXT = ['abc', '', '12abc', 'x', '-', 'one']
+# signed and exponent spellings of numbers (how floats of large/small magnitude are usually written)
+SPELLINGS = ['+0.5', '+2', '1e+16', '6.02e+23', '1E+16', '1e16', '1E5', '2.5e-3', '-1e-3', '1e+0']
 
 UNARY = ['ABS', 'SQRT', 'EXP', 'LN', 'LOG', 'LOG10', 'RADIANS', 'DEGREES',
          'SIN', 'COS', 'TAN', 'COT', 'ASIN', 'ACOS', 'ATAN', 'ACOT',
@@ -395,7 +398,7 @@ class Coercion(Sub):
         texts = textgrid(tier)
         for fn in UNARY:
             for form in ('v', 'l'):
-                for t in texts:
+                for t in texts + SPELLINGS:
                     yield [fn, form, 't', t]
                 for b in (True, False):
                     yield [fn, form, 'b', b]
